@@ -67,7 +67,11 @@ static void run_script(const std::string& script)
          else if (k == "block") { auto* b = lex.make_block(reg(a)); rec.blk = b; add_region(b->region(), &b->lexical_region); entity[static_cast<const ipr::Expr*>(b)] = me + ".0"; }
          else if (k == "handler") {
             auto* b = ops.at(a).blk; if (!b) throw std::out_of_range("not a block");
-            auto* h = b->new_handler(lex.get_identifier(u8"e"), lex.int_type());
+            // the exception type varies with the handler: an ordinary type, a pointer, the ellipsis of `catch (...)`, a class type ...
+            static std::size_t handler_serial = 0;
+            const ipr::Type* handler_types[] = { &lex.int_type(), &lex.ellipsis_type(), &lex.get_pointer(lex.char_type()), &lex.void_type(),
+                                                 &lex.get_reference(lex.get_qualified(lex.const_qualifier(), lex.int_type())), &lex.class_type() };
+            auto* h = b->new_handler(lex.get_identifier(u8"e"), *handler_types[handler_serial++ % 6]);
             rec.hnd = h;
             const ipr::Block& body = static_cast<const ipr::Handler*>(h)->body();
             add_region(body.region().enclosing(), nullptr);
